@@ -1,6 +1,7 @@
 import Proofs.C15Paging
 import Proofs.C15Hist
 import Proofs.C15Retry
+import Proofs.C15Walk
 /-!
 # C15 — paged iteration yields every row exactly once, in order, and then stops
 
@@ -464,6 +465,128 @@ example :
     let o := PagingRetry.runR (some (PagingRetry.scripted none)) 2 q false script false 0 1 q
     o.rows = [1, 2, 3] ∧ o.err = some (.srv 0x1100) ∧ o.atts = [1, 2, 1] ∧ PagingRetry.full script = [1, 2, 3, 4] ∧
     o.reqs.filterMap PagingRetry.reqState = [none, some [1], some [1], some [1], some [2]] := by
+  decide
+
+
+/-! ## Walking one iterator (`Model/PagingWalk.lean`): single Scan / MapScan / Scanner.Next calls, observers,
+    abandonment, the asynchronous prefetch launched by Iter.Scan's trigger and running at any moment
+
+Full property for an application that does NOT drain: at every moment of every walk the rows handed over so
+far are an initial piece of the result, in order, each once; the requests sent so far — including the one a
+prefetch may have sent ahead — are an initial piece of the requests of the full iteration (nothing is ever
+requested that the full iteration would not request, in particular nothing after the last page); and
+continuing to the end from there yields exactly the rest. Holds on the unchanged code (no `_partial`). -/
+
+open Paging.Hist Paging.Walk in
+/-- **Wherever the application stands, delivered ++ still to come = the result.** For every script, every
+    query, every prefetch-position function and EVERY walk (strides of single calls through Iter.Scan/MapScan or
+    Scanner.Next stopping at a false, observers, probes of the prefetch, the launched prefetch getting to run
+    at any moment): the rows delivered so far followed by what a drain would still deliver, the QUERY/EXECUTE
+    requests sent so far followed by those a drain would still send, and the error a drain would end with are
+    those of the query run alone in one go (`run`, which is the specification by `C15_session_rows` /
+    `C15_requests_partial`). -/
+theorem C15_walk_total (ppOf : Int → Nat → Nat) (script : List Reply) (q : Qry) (steps : List Walk.Step) :
+    tot ppOf (Walk.exec ppOf (Walk.start ppOf script q) steps).it = obs3 (run (ppOf q.pf) script false q) := by
+  have h1 := exec_winv ppOf steps _ (start_winv ppOf script q)
+  have h2 := exec_target ppOf steps (Walk.start ppOf script q) (start_winv ppOf script q).1
+  rw [h1.2, h2.1]
+  exact start_target ppOf script q
+
+open Paging.Hist Paging.Walk in
+/-- **An abandoned iteration has received a prefix, and has asked for nothing the full iteration would not
+    ask for.** With automatic paging, at every moment of every walk: the rows handed over are an initial
+    segment of the specification's rows (in order, each once, nothing skipped), and the QUERY/EXECUTE requests
+    the node has received or will receive from a prefetch already running are an initial segment of the
+    requests of the complete iteration — so no page after the last one, and no page twice, is ever requested
+    by an early stop, a Close, or the prefetch. -/
+theorem C15_walk_abandon_prefix (ppOf : Int → Nat → Nat) (script : List Reply) (q : Qry) (steps : List Walk.Step)
+    (hq : q.disableAutoPage = false) :
+    (Walk.exec ppOf (Walk.start ppOf script q) steps).it.out <+: Spec.rows script ∧
+    (Walk.exec ppOf (Walk.start ppOf script q) steps).it.reqs.filter Req.isExec <+:
+      (run (ppOf q.pf) script false q).reqs.filter Req.isExec := by
+  have h := C15_walk_total ppOf script q steps
+  have hs := (C15_session_rows (ppOf q.pf) script false q hq).1
+  simp only [tot, obs3, Prod.mk.injEq] at h
+  refine ⟨⟨(fut ppOf (Walk.exec ppOf (Walk.start ppOf script q) steps).it).rows, by rw [h.1, hs]⟩,
+    ⟨(fut ppOf (Walk.exec ppOf (Walk.start ppOf script q) steps).it).reqs.filter Req.isExec, ?_⟩⟩
+  rw [← h.2.1, List.filter_append]
+
+open Paging.Hist Paging.Walk in
+/-- **The prefetch never runs ahead of its threshold, and never more than one page.** At every moment of every
+    walk: if the page after the current one has been fetched before the consumer asked for it (`pre`), then
+    Iter.Scan had launched the prefetch, and it did so only after the consumer had taken MORE than `next.pos`
+    rows of the current page (`next.pos` = the clamped `int((1 - prefetch) * numRows)` ≥ 1, `C15_prefetch_pos`):
+    in particular never before a row of the current page was taken, and never through a Scanner. (The model
+    state has room for one page ahead only; that the real code sends no second one is the tie's matter: op
+    `walk` compares the node's request log at the moment of abandonment.) -/
+theorem C15_walk_prefetch_threshold (ppOf : Int → Nat → Nat) (script : List Reply) (q : Qry) (steps : List Walk.Step) :
+    let w := Walk.exec ppOf (Walk.start ppOf script q) steps
+    w.it.pre.isSome → (w.async = .launched ∨ w.async = .awaited) ∧ ∃ n, w.it.cur.next = some n ∧ n.pos < w.it.cur.pos := by
+  intro w h
+  have hi := exec_tinv ppOf steps _ (start_tinv ppOf script q)
+  exact ⟨hi.1 h, hi.2 (hi.1 h)⟩
+
+open Paging.Hist Paging.Walk in
+/-- **A stride that ends with `false` has ended the iteration, with everything delivered**: if the last call
+    of a stride returned false, the rows handed over since Iter() are the whole specification result, the
+    error is the specification's, and every request of the full iteration has been sent (no more, no fewer). -/
+theorem C15_walk_false_is_complete (ppOf : Int → Nat → Nat) (script : List Reply) (q : Qry) (steps : List Walk.Step)
+    (api : Walk.Api) (hq : q.disableAutoPage = false)
+    (hf : (scan1 ppOf api (Walk.exec ppOf (Walk.start ppOf script q) steps)).2 = false) :
+    let w := (scan1 ppOf api (Walk.exec ppOf (Walk.start ppOf script q) steps)).1
+    w.it.out = Spec.rows script ∧ w.it.cur.err = Spec.err script ∧
+    w.it.reqs.filter Req.isExec = (run (ppOf q.pf) script false q).reqs.filter Req.isExec := by
+  intro w
+  have hfin : finished w.it := scanF_fuel ppOf _ _ hf
+  have ht := C15_walk_total ppOf script q (steps ++ [Walk.Step.scan api 1])
+  have hexec : ∀ (l : List Walk.Step) (w0 : W) (s : Walk.Step), Walk.exec ppOf w0 (l ++ [s]) = Walk.step ppOf (Walk.exec ppOf w0 l) s := by
+    intro l
+    induction l with
+    | nil => intro w0 s; rfl
+    | cons a l ih => intro w0 s; exact ih _ s
+  rw [hexec] at ht
+  have hstep : Walk.step ppOf (Walk.exec ppOf (Walk.start ppOf script q) steps) (Walk.Step.scan api 1) = w := by
+    show (scanK ppOf api 1 _).1 = w
+    unfold scanK
+    simp only [scanK]
+    split <;> rfl
+  rw [hstep, tot_finished ppOf w.it hfin] at ht
+  have hs := C15_session_rows (ppOf q.pf) script false q hq
+  simp only [obs3, Prod.mk.injEq] at ht
+  exact ⟨ht.1.trans hs.1, ht.2.2.trans hs.2, ht.2.1⟩
+
+open Paging.Walk in
+/-- **WillSwitchPage() = false at the end of a page means the iteration is over**: no row left on the current
+    page and no next page — the next call returns false and sends nothing (`finished`); and WillSwitchPage() =
+    true means exactly that the current page is used up and carries has_more_pages (auto paging on). -/
+theorem C15_willswitch (w : W) (hrow : w.it.cur.rows.length ≤ w.it.cur.pos) :
+    (willSwitch w = false → Hist.finished w.it) ∧ (willSwitch w = true ↔ w.it.cur.next.isSome) := by
+  unfold willSwitch Hist.finished
+  have hr : w.it.cur.rows[w.it.cur.pos]? = none := List.getElem?_eq_none_iff.2 hrow
+  constructor
+  · intro h
+    right
+    refine ⟨hr, ?_⟩
+    cases hn : w.it.cur.next with
+    | none => rfl
+    | some n => simp [hn, hrow] at h
+  · simp [hrow]
+
+/-- non-vacuity (prefetch 0.25 of a 4-row page: threshold 3): after 3 rows nothing has been asked for ahead,
+    the 4th Scan launches the prefetch, it runs, and the node has then received exactly the two first requests;
+    WillSwitchPage is true, NumRows is 4, PageState is the state of page 1; draining from there gives the rest -/
+example :
+    let q : Qry := { ident := 1, prepared := false, skipMeta := false, pageSize := 0, pageState := [], disableAutoPage := false }
+    let script : List Reply := [.page [1, 2, 3, 4] (some [7]), .page [5] (some [8]), .page [6] none]
+    let ppOf : Int → Nat → Nat := fun _ n => 3 * n / 4
+    let w3 := Walk.exec ppOf (Walk.start ppOf script q) [.scan .scan 3, .arrive]
+    let w4 := Walk.exec ppOf (Walk.start ppOf script q) [.scan .scan 3, .arrive, .scan .scan 1, .arrive]
+    let w9 := Walk.exec ppOf (Walk.start ppOf script q) [.scan .scan 3, .arrive, .scan .scan 1, .arrive, .scan .scan 9]
+    w3.async = .idle ∧ w3.it.pre.isSome = false ∧ w3.it.reqs.length = 1 ∧
+    w4.async = .launched ∧ w4.it.pre.isSome = true ∧ w4.it.reqs.length = 2 ∧ w4.it.out = [1, 2, 3, 4] ∧
+    Walk.willSwitch w4 = true ∧ Walk.numRows w4 = 4 ∧ Walk.pageState w4 = [7] ∧
+    w9.it.out = [1, 2, 3, 4, 5, 6] ∧ w9.it.reqs.length = 3 ∧
+    (Walk.scan1 ppOf .scan w9).2 = false := by
   decide
 
 
